@@ -51,7 +51,13 @@ type Cfg struct {
 // types that were stored (a family may have overridden the key kind after RandCfg)
 func (c Cfg) RegMode() bool { return c.Reg && c.KK == "str" && c.VKind == "str" && c.Fmt == "json" }
 
-func (c Cfg) Line() string { return fmt.Sprintf("cfg %d %s %s %s", c.BF, c.Fmt, c.KK, c.VKind) }
+func (c Cfg) Line() string {
+	vk := c.VKind
+	if vk == "nilu" {
+		vk = "u64" // for the model the untyped nil value is the number 1
+	}
+	return fmt.Sprintf("cfg %d %s %s %s", c.BF, c.Fmt, c.KK, vk)
+}
 
 func (c Cfg) NodeFormat() string {
 	if c.Fmt == "json" {
@@ -236,6 +242,12 @@ func (c Cfg) Val(n uint64) interface{} {
 		return EV(escText(n))
 	case "agg":
 		return aggVal(n)
+	case "nilu":
+		// set-like use: 1 is the untyped nil value (in-memory trees only: JSON does not give nil back)
+		if n == 1 {
+			return nil
+		}
+		return n
 	}
 	panic("bad val kind")
 }
@@ -294,6 +306,8 @@ type IV struct{ X interface{} }
 
 func (c Cfg) ValNat(v interface{}) uint64 {
 	switch x := v.(type) {
+	case nil:
+		return 1
 	case uint64:
 		return x
 	case []byte:
@@ -354,7 +368,7 @@ func (c Cfg) ValNat(v interface{}) uint64 {
 
 func (c Cfg) ValuesLike() interface{} {
 	switch c.VKind {
-	case "u64":
+	case "u64", "nilu":
 		return uint64(0)
 	case "bytes", "nb":
 		return []byte{}
